@@ -82,3 +82,20 @@ type Box2 struct {
 	Code ext2.Code
 	Pad  int
 }
+
+// Stamp has unexported members only.
+type Stamp struct{ sec int64 }
+
+type kind int
+
+// Exp / Exp2: exported fields of an unexported type.
+type Exp struct {
+	K  kind
+	Ks []kind
+}
+
+type Exp2 struct {
+	K   kind
+	Ks  []kind
+	Pad int
+}
